@@ -1,6 +1,7 @@
 (* C09 — @position ranges are exactly the byte span the rule consumed. *)
 From PegV Require Import Utf8 Utf8Facts State Terminals TerminalsSpec TerminalsOk Syntax Fields
   FieldsFacts GetFieldsFacts Literals LiteralsFacts Model Spec SpecPos ShapeFacts ErrLog Sim Conform ConformX MemoEq MemoSpec Extracted.
+From PegV Require Import CleanFrame UsualShape.
 
 Theorem C09_facts :
   Extracted.file_codegen_src_rule_rs = true /\ Extracted.file_runtime_src_state_rs = true /\
@@ -79,3 +80,24 @@ Proof.
   change term_cfg_expected with Extracted.tcfg in C. rewrite E in C. exact C.
 Qed.
 Print Assumptions C09_span_memoized.
+
+(* ---- @position on a @leftrec rule of the usual shape (UsualShape.v): the value of every turn of the growth
+   loop - the seed and every extension, hence every node nested in the recursive field - records the range
+   from the rule's entry offset to that turn's own end offset: nested nodes share the start of their parent
+   and end inside it *)
+Theorem C09_leftrec_positions :
+  forall (ustate : Type) (scfg : state_cfg) (tcfg : term_cfg) (fcfg : fields_cfg) 
+    (rcfg : rule_cfg) (hk : hooks ustate) (g : grammar) (A : rule) (l : name) 
+    (bx : bool) (x1 : expr) (xs : list expr) (b1 : expr) (balts : list expr)
+    (rf fds fds1 inner1 : list fdesc),
+  get_fields fcfg (gf_fuel g) g (adef A l bx x1 xs b1 balts) = GFOk rf ->
+  forall (k : nat) (st : pstate) (c : cached) (gl0 : glob ustate) (v1 : value) 
+    (s1 : pstate) (gl1 : glob ustate),
+  fl_position (flags_of (r_directives A)) = true ->
+  fl_string (flags_of (r_directives A)) = false ->
+  (forall fd : fdesc, rf = [fd] -> name_eqb (fd_name fd) n_override = false) ->
+  usual_body ustate scfg tcfg fcfg rcfg hk g A l x1 xs b1 balts rf fds fds1 inner1 k st c gl0 =
+  (MOk v1 s1, gl1) ->
+  exists fs : list (name * value), v1 = VStruct (r_name A) fs (Some (off st, off s1)).
+Proof. exact usual_turn_position. Qed.
+Print Assumptions C09_leftrec_positions.
